@@ -106,7 +106,7 @@ fn close(a: f64, b: f64) -> bool {
 }
 
 fn run_core(ctx: &RunCtx, report: &mut Report) {
-    let sizes: Vec<usize> = ctx.tier.pick(vec![1, 2, 3], vec![1, 2, 3, 4]);
+    let sizes: Vec<usize> = ctx.tier.pick(vec![1, 2, 3], vec![1, 2, 3, 4, 5]);
     let max_profiles = 3;
     let mut sets = 0u64;
     let mut queries = 0u64;
@@ -117,7 +117,7 @@ fn run_core(ctx: &RunCtx, report: &mut Report) {
                 // matrix list in canonical order: (profile, ts idx)
                 let canonical: Vec<(usize, usize)> = (0..p).flat_map(|pi| (0..ts_count).map(move |ti| (pi, ti))).collect();
                 // input orders: canonical, reversed, every rotation; all permutations when small
-                let orders: Vec<Vec<usize>> = if canonical.len() <= ctx.tier.pick(4, 5) {
+                let orders: Vec<Vec<usize>> = if canonical.len() <= ctx.tier.pick(4, 6) {
                     permutations(canonical.len())
                 } else {
                     let m = canonical.len();
